@@ -570,7 +570,9 @@ package flamego
 
 //@ func Static$2$1
 //@   props C16
+//@   requires-captured f != nil
 //@   modifies nothing
 //@ func Static$2$2
 //@   props C16
+//@   requires-captured index != nil
 //@   modifies nothing
